@@ -200,3 +200,107 @@ EXPLAIN = {
            'function\'s domain, equality with the set-partition Faa di Bruno composition of sympy\'s derivatives',
     'C02': 'as C01 for + - * / neg recip powi on two independent operands, all presence patterns',
 }
+
+
+# ---------------------------------------------------------------------------------------------
+# C15 spherical Bessel functions
+# ---------------------------------------------------------------------------------------------
+def _series_coeffs(fname, upto):
+    import sympy as sp
+    expr, syms = jets.SYMPY_FUNCS[fname]
+    x = syms[0]
+    ser = sp.series(expr, x, 0, upto + 1).removeO()
+    poly = sp.Poly(ser, x)
+    return [sp.Rational(poly.coeff_monomial(x ** k)) for k in range(upto + 1)]
+
+
+def _c15_chunk(run, specs):
+    import sympy as sp
+    cases = trace(specs, 'c15', run.seed)
+    EPS = ('named', 'EPSILON')
+    for case in cases:
+        run.cases += 1
+        run.instantiations.add(case['shape'] + '<S>')
+        f = case['kind'].split(':')[1]
+        run.functions.add(f)
+        if not check_validation(run, case):
+            continue
+        terms = ir.dag_to_terms(case['dag'])
+        levels = case['levels']
+        order = jets.max_order(levels) if levels else 0
+        coeffs = _series_coeffs(f, order + 8)
+        for path in case['paths']:
+            res = path['result']
+            if 'panic' in res:
+                run.inconclusive.append({'case': case_id(case), 'reason': 'panic path ' + res['panic'][:60]})
+                continue
+            ins = {n: algebra.leaves_terms(terms, l) for (n, l) in res['inputs']}
+            outs = {n: algebra.leaves_terms(terms, l) for (n, l) in res['outputs']}
+            x = ins['x']
+            xr = x[0]
+            rv = revars_of(res, terms)
+            # (A) |x| >= eps: exactly the closed form composed with the operand's parts
+            obs, assume = algebra.primary(case, res, terms)
+            assume = [a for a in assume] + [('or', ('ge', xr, EPS), ('le', xr, ir.neg(EPS)))]
+            pctx = PathCtx(run, case, path, terms, assume)
+            decide_path(run, case, pctx, obs, f'C15:{f}:closed-form-region', revars=rv)
+            # (B') x == 0: every part equals the composition of the true derivatives at 0
+            fact = 1
+            d0 = []
+            for k in range(order + 1):
+                if k:
+                    fact *= k
+                q = coeffs[k] * fact
+                d0.append(ir.T('const', Fraction(int(q.p), int(q.q))))
+            oracle0 = jets.compose(levels, [x], lambda alpha: d0[alpha[0]]) if levels else [d0[0]]
+            obs0 = [(f'y#{i}', a, b) for i, (a, b) in enumerate(zip(outs['y'], oracle0))]
+            pctx = PathCtx(run, case, path, terms, [('eq', xr, ZERO)])
+            decide_path(run, case, pctx, obs0, f'C15:{f}:at-zero', revars=rv)
+            # (B'') 0 < |x| < eps: every coefficient within 2^-20 of the degree-(order+8) Taylor
+            # polynomial of the true function (whose own truncation error there is < 2^-100)
+            def dser(alpha, coeffs=coeffs):
+                k = alpha[0]
+                t = ZERO
+                for j in range(len(coeffs) - 1, k - 1, -1):
+                    c = coeffs[j]
+                    for i in range(k):
+                        c = c * (j - i)
+                    t = ir.add(ir.mul(t, xr), ir.T('const', Fraction(int(c.p), int(c.q))))
+                return t
+            oracle_s = jets.compose(levels, [x], dser) if levels else [dser((0,))]
+            obss = [(f'y#{i}', a, b) for i, (a, b) in enumerate(zip(outs['y'], oracle_s))]
+            pctx = PathCtx(run, case, path, terms, [('lt', xr, EPS), ('gt', xr, ir.neg(EPS))])
+            decide_path(run, case, pctx, obss, f'C15:{f}:series-region', revars=rv,
+                        tol=Fraction(1, 2 ** 20), vacuity=False)
+        if len(run.samples) < 3:
+            run.sample({'case': case_id(case), 'paths': len(case['paths']),
+                        'conditions': [[c[0], str(terms[c[1]])[:50], str(terms[c[2]])[:30], c[3]]
+                                       for c in case['paths'][0]['conds']],
+                        'obligations': ['|x|>=eps: parts == FaaDiBruno(closed form)',
+                                        'x==0: parts == FaaDiBruno(sympy series coefficients * k!)',
+                                        '|x|<eps: |coefficient - Taylor polynomial| <= 2^-20']})
+
+
+def c15(run):
+    rng = random.Random(run.seed)
+    shapes = ['Real'] + SC + ['DualVec2', 'Dual2<Dual>']
+    if run.tier == 'thorough':
+        shapes += ['Dual2VecD2', 'HyperDualVec22', 'Dual<Dual>', 'Dual<Dual2>', 'HyperDual<Dual>', 'Dual3<Dual>',
+                   'Dual<Dual<Dual>>', 'DualVec2<Dual>']
+    specs = []
+    for sh in shapes:
+        for f in ('sph_j0', 'sph_j1', 'sph_j2'):
+            for p in presence_patterns(sh, 1, run.tier, rng, cap=4):
+                specs.append((sh, f'un:{f}', p))
+    run.bounds = {'total derivative order': '<= 4 (series of the repository are exact at 0 up to order 4)',
+                  'tolerance in the series region': '2^-20 absolute per coefficient, |x| < eps <= 2^-23',
+                  'outside': 'rounding of the closed forms for tiny non-zero |x| >= eps (cancellation) is a '
+                             'floating-point fact and is not decided'}
+    chunks = [specs[i:i + 8] for i in range(0, len(specs), 8)]
+    parallel(run, _c15_chunk, chunks)
+
+
+EXPLAIN['C15'] = ('sph_j0/1/2 traced on every path for dual types and for the plain-float leaf (the repository\'s '
+                  'own macro text expanded at S); z3 decides: closed form exact for |x| >= eps (so a series '
+                  'path reachable there is a violation), exact Taylor data at x = 0, and a 2^-20 bound against '
+                  'the high-order Taylor polynomial for 0 < |x| < eps')
